@@ -9,7 +9,7 @@ def repo_hook_commits():
 
 CHECKS = {
  "C01": dict(engine="E-WIRE/ReaderBench", technique="runtime monitoring: trace oracle (order/once/no-hole/integrity) over take/read results of the real Reader+DataReader under generated lossy/duplicated/reordered RTPS histories",
-   text="Exploration. The real Reader, MessageReceiver, TopicCache and four reader API flavours are run on generated histories (drop, duplicate, reorder, GAP/HEARTBEAT declarations, fragments, several writers, SN windows > 256) and every hand-over is judged by a shadow model that only knows what was injected. Holds on the executions produced; says nothing about histories the generator does not reach.",
+   text="Exploration. The real Reader, MessageReceiver, TopicCache and four reader API flavours are run on generated histories (drop, duplicate, reorder, GAP/HEARTBEAT declarations, fragments, several writers, SN windows > 256) and every hand-over is judged by a shadow model that only knows what was injected. A second leg runs two reliable DataReaders of one participant on one topic (shared TopicCache) with per-reader repairs and GAPs; each reader on its own must obey the same rules (one open known finding there). Holds on the executions produced; says nothing about histories the generator does not reach.",
    note="Trusts the in-crate bench wiring (mirrors Subscriber::create_simple_datareader_internal) and the harness's own RTPS builder; reader QoS fixed to Reliable/KeepAll/large limits; event-loop dispatch bypassed.", ref="3/C01"),
  "C03": dict(engine="E-WIRE/ReaderBench", technique="runtime monitoring: every ACKNACK/NACKFRAG captured at the UDPSender tap is decoded by an independent walker and checked against a set-logic shadow model",
    text="Exploration. Every reply datagram the Reader emits for an injected HEARTBEAT is captured at UDPSender::send_to_locator and judged (base truthful and monotone, members really missing and in the advertised range, counts increasing, lowest missing requested, NACKFRAG names exactly the missing fragments, non-final heartbeats answered).",
@@ -34,7 +34,7 @@ CHECKS.update({
    text="Exploration. Scripted populations of fake readers (none, best-effort only, reliable, mixed, churn, late joiners) drive a real Writer with writes (some to_single_reader, some fragmented), arbitrary ACKNACKs, match/loss, heartbeat ticks, cleaning and repair-to-quiescence; all datagrams are decoded independently and compared with what was written.",
    note="Limit = History depth capped at the hard-coded 32; NACKFRAG-driven partial repair is exercised through C02's link, not here; dispose payload bytes are not compared.", ref="3/C04"),
  "C20": dict(engine="E-WIRE/WriterBench", technique="runtime monitoring: model of pending reliable readers vs the return value / completion of the real wait_for_acknowledgments (sync on a thread with measured time, async under executor discipline)",
-   text="Exploration. Random histories of match/loss/write/ACKNACK (boundary bases last and last+1) around the call; success only when the model's pending set is empty, prompt success when it is, timeout not before the requested time, async future re-polled only when its waker fired.",
+   text="Exploration. Random histories of match/loss/write/ACKNACK (boundary bases last and last+1) around the call; success only when the model's pending set is empty, prompt success when it is, timeout not before the requested time, async future re-polled only when its waker fired. Second leg: two threads calling the sync form on one DataWriter at once; neither may report success before everything is acknowledged.",
    note="False yes is looked for during 3 ms windows and at the end; upper completion bound is a watchdog (8 s), not a verdict.", ref="3/C20"),
 })
 CHECKS.update({
@@ -43,16 +43,16 @@ CHECKS.update({
    note="Per-policy part exhaustive over the listed value domains; the conjunction part is sampled. Partition/time-based-filter/lifespan are not RxO policies in this implementation.", ref="3/C10", category="exploration"),
  "C14": dict(engine="E-CODEC/RTPS", technique="runtime monitoring: messages built by the implementation's own constructors are serialised, parsed back and compared; an independent walker re-derives framing, flags and every field from the bytes; number-set membership rules",
    text="Exploration. 1-5 submessages per message from MessageBuilder / create_submessage / direct structs with boundary values, inline QoS, payload lengths of every residue mod 4, 0-256-bit number sets, per-submessage endianness. Oracles: structural round trip, canonical re-serialisation, framing (lengths, alignment, end), flags vs content, field-level equality with an independent decoder, number-set window rules.",
-   note="HEARTBEAT_FRAG, INFO_REPLY and the security submessages are not generated in the default-feature build; interoperability with other vendors is out of reach offline.", ref="3/C14"),
+   note="HEARTBEAT_FRAG and the security submessages are not generated in the default-feature build (INFO_REPLY is, since dd5cddb); interoperability with other vendors is out of reach offline.", ref="3/C14"),
 })
 CHECKS.update({
  "C06": dict(engine="E-HOSTILE", technique="runtime monitoring under hostile input: panic capture with first in-library frame, per-datagram thread-CPU-time and heap high-water monitors (counting global allocator with single-allocation guard), CPU-time hang watchdog in subprocess shards, aftermath delivery check",
    text="Exploration. Structure-aware hostile datagrams (boundary-valued fields, wide ranges, lying lengths/offsets/counts, inconsistent fragments, truncation, mutation, concatenation, random bytes) interleaved with state-building valid traffic are fed to a reliable keyed reader, a best-effort no_key reader and a reliable writer; each datagram is judged for panic, disproportionate CPU time or heap growth, and afterwards a never-impersonated peer's valid traffic must be delivered in order and unaltered.",
-   note="Thresholds (0.2 s CPU, 64*len+1 MiB heap, 256 MiB single request, 2 s = hang) are far from honest behaviour (microseconds, <100 KiB). Default-feature release build; cumulative growth over many datagrams and the real socket path are covered only by the sanitizer/valgrind legs when run.", ref="3/C06"),
+   note="Thresholds (0.2 s CPU, 64*len+1 MiB heap, 256 MiB single request, 2 s = hang) are far from honest behaviour (microseconds, <100 KiB). Two builds (release; same with overflow checks and debug assertions on). Memcheck (both tiers) and Miri (thorough) legs run a socket-free workload over the parser and the per-writer bookkeeping plus, under valgrind, real-UDP scenarios, real shards and a security-build run; Miri cannot open sockets, so Reader/Writer objects are out of its reach.", ref="3/C06"),
 })
 CHECKS.update({
  "C11": dict(engine="E-STACK/fake-participants", technique="runtime monitoring at the public API: status events of a real DomainParticipant under wire-level discovery event histories from harness-controlled remote participants, with logical barriers, against a set model and the C10 reference table",
-   text="Exploration. One real participant (Discovery thread, event loop, SPDP/SEDP readers, all real) is driven over loopback UDP by 2-3 fake remote participants that announce, re-announce and dispose endpoints, get disposed and reappear. After each event a marker announced on the same SEDP stream must be matched (logical barrier); the matched/incompatible status events drained through the public API must then equal exactly the model's set changes with correct current/total counts.",
+   text="Exploration. One real participant (Discovery thread, event loop, SPDP/SEDP readers, all real) is driven over loopback UDP by 2-3 fake remote participants that announce, re-announce and dispose endpoints, get disposed and reappear. After each event a marker announced on the same SEDP stream must be matched (logical barrier); the matched/incompatible status events drained through the public API must then equal exactly the model's set changes with correct current/total counts. Up to two further local readers/writers are created while the scenario runs; their matched sets must equal the model at that moment.",
    note="Timeout-based participant loss is exercised under C12; a reappearing participant re-announces its endpoints; barrier timeouts are inconclusive; <=4 events per endpoint and step (status channel capacity).", ref="3/C11"),
  "C15": dict(engine="E-CODEC/PL-CDR", technique="runtime monitoring: generated discovery values through the real PL-CDR (de)serialisers in both encodings; independent parameter-list walker inserts unknown/vendor parameters at every boundary; defaults table from RTPS 2.5",
    text="Exploration. SpdpDiscoveredParticipantData, DiscoveredReader/Writer/TopicData, ParticipantMessageData and QosPolicies with every optional field independently present/absent: round trip equality (both encodings), unchanged result with foreign parameters of length 0-64 inserted at every boundary, RTPS defaults for absent parameters (including the lease default observed through a real DiscoveryDB in the thorough tier).",
@@ -63,7 +63,7 @@ CHECKS.update({
 })
 CHECKS.update({
  "C12": dict(engine="E-DISC + E-STACK/fake-participants", technique="runtime monitoring with interval-bracketed real time: a real DiscoveryDB driven synchronously with short leases (only verdicts decided by the measured brackets are judged), plus a real participant whose fake remote peers go silent, are disposed and reappear",
-   text="Exploration. DB leg: random scripts of update/alive/cleanup/dispose/endpoint announcements/sleeps with leases 40-400 ms, infinite and absent; rules no-early-drop, drop-after, dispose-immediate, attic-restore. Stack leg: ParticipantLost and unmatch events of a real participant must not come before the advertised lease has elapsed since the last announcement, must come within a generous bound after it, never for a peer that keeps announcing, and at once after an explicit dispose.",
+   text="Exploration. DB leg: random scripts of update/alive/cleanup/dispose/endpoint announcements/sleeps with leases 40-400 ms, infinite and absent; rules no-early-drop, drop-after, dispose-immediate, attic-restore. Stack leg: ParticipantLost and unmatch events of a real participant must not come before the advertised lease has elapsed since the last announcement, must come within a generous bound after it, never for a peer that keeps announcing (half of the fake peers address SPDP to ENTITYID_UNKNOWN, half repeat the announcement with the same sequence number), and at once after an explicit dispose.",
    note="Wall-clock enters only through measured brackets (DB leg) and generous watchdogs (stack leg: lease + 12 s); liveliness assertions through ParticipantMessageData are exercised only at the DB level (participant_is_alive).", ref="3/C12"),
  "C18": dict(engine="E-SEC/access", technique="runtime monitoring: signed-document alteration sweep through the real S/MIME verification path with an independent MIME walker; random permissions/governance documents through the real XML parsers and decision functions against a reference evaluator (own fnmatch) that judges only verdicts every reading of the statement agrees on",
    text="Exploration. Signature leg: every alteration class at sampled positions of each region of committed signed fixtures (content changes rejected; anything accepted returns byte-identical signed content; foreign-CA, transplanted and unsigned documents rejected; also through validate_local/remote_permissions). Decision leg: generated grants/rules/domain sets/patterns/validity windows/defaults, queries through check_entity (with partitions) and the public check_* functions, compared with the reference evaluator.",
@@ -80,7 +80,7 @@ CHECKS.update({
 CHECKS.update({
  "C07": dict(engine="E-STACK/real-participants", technique="runtime monitoring of full-stack executions: two to four real DomainParticipants in one process over loopback UDP with a seeded datagram-loss policy at the UDPSender tap; random creation/deletion scripts; the oracle reads only what the public API returned (status events, take()) and compares it with the script (what was written, when, by whom)",
    text="Exploration. Random dependency-respecting creation orders of participants (started concurrently on helper threads), topics, publishers/subscribers and 2-6 endpoints with pauses of 0-3.5 s and writes before anybody matched; with_key and no_key; reliable/best-effort readers, Volatile/TransientLocal/unset durability, KeepAll/KeepLast writers; 30 payload sizes on both sides of the fragment limit and of every residue mod 4; loss 0-10 % during discovery and 0-20 % during traffic; late joiner on an existing or a brand-new participant; deletion of a reader, a writer or a participant (both drop orders) followed by traffic among the survivors. Rules: match-within-bound (both sides), complete/ordered/unaltered delivery to reliable readers of keep-all writers (keep-last: the tail), retained history to TransientLocal late joiners, nothing earlier to Volatile readers, unmatch observed by peers.",
-   note="Security-enabled participants are not part of the scenarios (C16/C17/C19 exercise the plugins at their own level); bounds are 40 s of unstalled harness time against typical waits of 2-4 s; partition/heal (lease expiry then rediscovery) is not scripted.", ref="3/C07"),
+   note="Security-enabled participants are not part of the scenarios (C16/C17/C19 exercise the plugins at their own level); bounds are 40 s of unstalled harness time against typical waits of 2-4 s; one scenario in six has an outage longer than the participant lease (receive-side tap), total or one-sided, after which everything must match again.", ref="3/C07"),
  "C17": dict(engine="E-SEC/message-receiver", technique="runtime monitoring: a real MessageReceiver built with a real SecurityPluginsHandle (AccessControlBuiltin state from generated governance XML, CryptographicBuiltin with exchanged tokens) fed with datagrams the harness built itself, so the oracle is a lookup of what protection each injected unit carried; observation = TopicCache contents, DataReader::take and the acknack channel",
    text="Exploration. All 27 combinations of rtps/metadata/data protection kinds; every submessage kind to protected, unprotected and the three exempt builtin endpoints, with explicit and unknown receiver ids, as plaintext, correctly protected, protected with wrong keys / by an unregistered sender / with another endpoint's keys; wrong SEC_* and SRTPS_* sequencing, foreign INFO_DST/INFO_SRC context. Rules: no-plaintext-to-protected and unprotected-flows (so a receiver that blocks everything fails).",
    note="Security build; authentication is a stand-in that hands out identity handles and a fabricated shared secret, validate_*_permissions are stand-ins, every get_*_sec_attributes call is the real one; the Writer object behind the acknack channel is not instantiated.", ref="3/C17"),
